@@ -845,12 +845,13 @@ Proof.
   - rewrite IH. apply firstn_skipn.
 Qed.
 
-Lemma exec_writes : forall cs d m b,
-  exec_steps (mkFs d m (Some b)) (map (SWrite PTmp) cs) = Some (mkFs d m (Some (b ++ concat cs))).
+(* writes only fill the buffer *)
+Lemma exec_writes : forall cs d m t b,
+  exec_steps (MkFs d m t (Some (PTmp, b))) (map (SWrite PTmp) cs) = Some (MkFs d m t (Some (PTmp, b ++ concat cs))).
 Proof.
   induction cs as [|c cs IH]; intros; simpl.
   - rewrite app_nil_r. reflexivity.
-  - rewrite IH. rewrite <- app_assoc. reflexivity.
+  - unfold set_buf. simpl. rewrite IH. rewrite <- app_assoc. reflexivity.
 Qed.
 
 Definition saved (d : db) : fs := mkFs true (Some (ser_db d)) None.
@@ -868,16 +869,17 @@ Qed.
 Lemma save_pre_exec : forall f d lens,
   exec_steps f (save_pre f d lens) = Some (mkFs true (f_main f) (Some (ser_db d))).
 Proof.
-  intros [dir m t] d lens. unfold save_pre. simpl f_dir.
-  assert (forall m t, exec_steps (mkFs true m t) ([SOpenTrunc PTmp] ++ map (SWrite PTmp) (chunks lens (ser_db d)) ++ [SClose PTmp])
+  intros [dir m t bf] d lens. unfold save_pre. simpl f_dir.
+  assert (forall m t bf, exec_steps (MkFs true m t bf) ([SOpenTrunc PTmp] ++ map (SWrite PTmp) (chunks lens (ser_db d)) ++ [SClose PTmp])
           = Some (mkFs true m (Some (ser_db d)))) as H.
-  { intros m0 t0. simpl. rewrite exec_steps_app. unfold fset. simpl.
+  { intros m0 t0 b0. simpl. rewrite exec_steps_app. unfold fset, set_buf. simpl.
     rewrite exec_writes. simpl. rewrite chunks_concat. reflexivity. }
   destruct dir; simpl List.app.
   - apply H.
-  - change (exec_steps (mkFs false m t) (SMkdir :: ?l)) with (exec_steps (mkFs true m t) l). apply H.
+  - change (exec_steps (MkFs false m t bf) (SMkdir :: ?l)) with (exec_steps (MkFs true m t bf) l). apply H.
 Qed.
 
+(* a completed save: exactly the new text in the key file, no temporary file, nothing buffered *)
 Theorem save_exec : forall f d lens, exec_steps f (save_steps f d lens) = Some (saved d).
 Proof.
   intros. rewrite save_steps_split, exec_steps_app, save_pre_exec. reflexivity.
@@ -890,29 +892,55 @@ Definition tmp_only (s : step) : bool :=
   | _ => false
   end.
 
-Lemma tmp_only_step : forall s f f', tmp_only s = true -> exec_step f s = Some f' -> f_main f' = f_main f.
+(* no file object is writing to the key file *)
+Definition buf_off_main (f : fs) : bool :=
+  match f_buf f with Some (PMain, _) => false | _ => true end.
+
+Lemma tmp_only_step : forall s f f', tmp_only s = true -> buf_off_main f = true -> exec_step f s = Some f' ->
+  f_main f' = f_main f /\ buf_off_main f' = true.
 Proof.
-  intros s f f' H E. destruct s as [|[|]|[|] c|[|]|a b]; simpl in H; try discriminate; simpl in E.
-  - inversion E; reflexivity.
-  - destruct (f_dir f); inversion E; reflexivity.
-  - destruct (f_tmp f); inversion E; reflexivity.
-  - destruct (f_tmp f); inversion E; reflexivity.
+  intros s [dir m t bf] f' H B E. unfold buf_off_main in *. simpl in B.
+  destruct s as [|[|]|[|] c|[|]|a b]; simpl in H; try discriminate; simpl in E.
+  - inversion E; subst; simpl; auto.
+  - destruct dir; inversion E; subst; simpl; auto.
+  - destruct bf as [[[|] b]|]; simpl in E; try discriminate. inversion E; subst; simpl; auto.
+  - destruct bf as [[[|] b]|]; simpl in E; try discriminate.
+    destruct t; inversion E; subst; simpl; auto.
+Qed.
+
+Lemma die_main : forall cut f, buf_off_main f = true ->
+  f_main (die cut f) = f_main f /\ f_buf (die cut f) = None \/ (f_buf f = None /\ die cut f = f).
+Proof.
+  intros cut [dir m t bf] B. unfold buf_off_main in B. simpl in B. unfold die. simpl.
+  destruct bf as [[[|] b]|]; try discriminate.
+  - left. destruct t; simpl; auto.
+  - right. auto.
+Qed.
+
+Lemma die_props : forall cut f, buf_off_main f = true ->
+  f_main (die cut f) = f_main f /\ (f_buf f = None -> die cut f = f) /\
+  (f_buf (die cut f) = None).
+Proof.
+  intros cut [dir m t bf] B. unfold buf_off_main in B. simpl in B. unfold die. simpl.
+  destruct bf as [[[|] b]|]; try discriminate.
+  - destruct t; simpl; repeat split; auto; discriminate.
+  - simpl. repeat split; auto.
 Qed.
 
 Lemma crash_tmp_only : forall l f f1 k cut,
-  forallb tmp_only l = true -> exec_steps f l = Some f1 ->
-  exists f', crash_exec k cut l f = Some f' /\ f_main f' = f_main f.
+  forallb tmp_only l = true -> buf_off_main f = true -> exec_steps f l = Some f1 ->
+  exists f', crash_exec k cut l f = Some f' /\ f_main f' = f_main f /\ f_buf f' = None.
 Proof.
-  induction l as [|s l IH]; intros f f1 k cut H E.
-  - exists f. destruct k; auto.
+  induction l as [|s l IH]; intros f f1 k cut H B E.
+  - destruct (die_props cut f B) as (M & _ & N). exists (die cut f). destruct k; auto.
   - simpl in H. apply andb_true_iff in H. destruct H as [Hs Hl].
     simpl in E. destruct (exec_step f s) as [f2|] eqn:E2; try discriminate.
-    destruct k as [|k]; simpl.
-    + destruct s as [|p|p c|p|a b]; try (exists f; auto; fail).
-      destruct p; simpl in Hs; try discriminate. simpl in E2. simpl.
-      destruct (f_tmp f) as [b|]; try discriminate. eexists. split; reflexivity.
-    + rewrite E2. destruct (IH f2 f1 k cut Hl E) as (f' & C & M). exists f'. split; auto.
-      rewrite M. eapply tmp_only_step; eauto.
+    destruct (tmp_only_step s f f2 Hs B E2) as [M2 B2].
+    destruct k as [|k]; cbn [crash_exec].
+    + destruct (die_props cut f B) as (M & _ & N). destruct (die_props cut f2 B2) as (M' & _ & N').
+      destruct s as [|p|p c|p|a b]; try (exists (die cut f); auto; fail).
+      rewrite E2. exists (die cut f2). repeat split; auto. congruence.
+    + rewrite E2. destruct (IH f2 f1 k cut Hl B2 E) as (f' & C & M & N). exists f'. repeat split; auto. congruence.
 Qed.
 
 Lemma crash_exec_app : forall a b k cut f,
@@ -929,7 +957,8 @@ Proof.
       * destruct (S k <? S (List.length a))%nat; reflexivity.
 Qed.
 
-Lemma crash_exec_all : forall l k cut f, (List.length l <= k)%nat -> crash_exec k cut l f = exec_steps f l.
+Lemma crash_exec_all : forall l k cut f, (List.length l <= k)%nat ->
+  crash_exec k cut l f = option_map (die cut) (exec_steps f l).
 Proof.
   induction l as [|s l IH]; intros k cut f H.
   { destruct k; reflexivity. }
@@ -944,39 +973,42 @@ Proof.
   - rewrite andb_true_r. induction (chunks lens (ser_db d)); simpl; auto.
 Qed.
 
-(* the heart of crash atomicity: wherever save is interrupted, the key file is untouched
-   until the rename, and complete after it *)
-Theorem save_crash : forall f d lens k cut,
-  exists f', crash_exec k cut (save_steps f d lens) f = Some f' /\
+(* the heart of crash atomicity: wherever save is interrupted and whatever part of the buffered
+   data had reached the temporary file, the key file is untouched until the rename, and complete
+   after it (the rename comes after the close, so nothing is buffered any more) *)
+Theorem save_crash : forall f d lens k cut, f_buf f = None ->
+  exists f', crash_exec k cut (save_steps f d lens) f = Some f' /\ f_buf f' = None /\
     ((k < List.length (save_steps f d lens))%nat -> f_main f' = f_main f) /\
     ((List.length (save_steps f d lens) <= k)%nat -> f' = saved d).
 Proof.
-  intros f d lens k cut.
+  intros f d lens k cut Hb.
+  assert (buf_off_main f = true) as B by (unfold buf_off_main; rewrite Hb; reflexivity).
   destruct (Nat.le_gt_cases (List.length (save_steps f d lens)) k) as [Hk|Hk].
   - exists (saved d). rewrite crash_exec_all by auto. rewrite save_exec. repeat split; auto. lia.
   - rewrite save_steps_split in *. rewrite app_length in Hk. simpl in Hk.
     rewrite crash_exec_app.
     destruct (k <? List.length (save_pre f d lens))%nat eqn:L.
-    + destruct (crash_tmp_only _ f _ k cut (save_pre_tmp_only f d lens) (save_pre_exec f d lens)) as (f' & C & M).
+    + destruct (crash_tmp_only _ f _ k cut (save_pre_tmp_only f d lens) B (save_pre_exec f d lens)) as (f' & C & M & N).
       exists f'. repeat split; auto. rewrite app_length. simpl. lia.
     + rewrite save_pre_exec.
       assert (k - List.length (save_pre f d lens) = 0)%nat as Z by lia. rewrite Z. simpl.
-      eexists. split; [reflexivity|]. split; auto. rewrite app_length. simpl. lia.
+      eexists. split; [reflexivity|]. repeat split; auto. rewrite app_length. simpl. lia.
 Qed.
 
 (* ================================================================== refinement: the files behave like the database *)
-(* the key file holds (a text that reads as) the well-formed database d; the ".tmp" file and
-   the directory flag are unconstrained: leftovers of an interrupted save are harmless *)
-Definition rel (f : fs) (d : db) : Prop := db_ok d = true /\ read_db f = Some d.
+(* the key file holds (a text that reads as) the well-formed database d and no file object is open
+   (between operations none is); the ".tmp" file and the directory flag are unconstrained: leftovers
+   of an interrupted save are harmless *)
+Definition rel (f : fs) (d : db) : Prop := db_ok d = true /\ read_db f = Some d /\ f_buf f = None.
 
 Lemma rel_saved : forall d, db_ok d = true -> rel (saved d) d.
-Proof. intros d H. split; auto. unfold read_db, saved. simpl. apply parse_ser; auto. Qed.
+Proof. intros d H. split; auto. split; [|reflexivity]. unfold read_db, saved. simpl. apply parse_ser; auto. Qed.
 
 Lemma rel_init : forall dir tmp, rel (mkFs dir None tmp) [].
-Proof. intros. split; reflexivity. Qed.
+Proof. intros. repeat split; reflexivity. Qed.
 
-Lemma rel_same_main : forall f f' d, rel f d -> f_main f' = f_main f -> rel f' d.
-Proof. intros f f' d [H1 H2] E. split; auto. unfold read_db in *. rewrite E. auto. Qed.
+Lemma rel_same_main : forall f f' d, rel f d -> f_main f' = f_main f -> f_buf f' = None -> rel f' d.
+Proof. intros f f' d (H1 & H2 & H3) E N. repeat split; auto. unfold read_db in *. rewrite E. auto. Qed.
 
 Definition item_ok (it : item) : bool :=
   match it with
@@ -989,10 +1021,10 @@ Lemma c_item_do : forall f d h o lens, rel f d -> str_ok h = true -> op_ok o = t
   let '(d', x') := a_step d h o in
   x = x' /\ rel f' d'.
 Proof.
-  intros f d h o lens [Hd Hr] Hh Ho. unfold c_item, a_step. rewrite Hr.
+  intros f d h o lens (Hd & Hr & Hb) Hh Ho. unfold c_item, a_step. rewrite Hr.
   destruct (a_apply d h o) as [[d'|] r] eqn:E.
   - rewrite save_exec. split; auto. apply rel_saved. eapply a_apply_ok; eauto.
-  - split; auto. split; auto.
+  - split; auto. repeat split; auto.
 Qed.
 
 (* an interrupted operation leaves the old database or the new one *)
@@ -1001,13 +1033,13 @@ Lemma c_item_crash : forall f d h o lens k cut, rel f d -> str_ok h = true -> op
   (rel f' d /\ x = match fst (a_apply d h o) with Some _ => OCrashed | None => snd (a_apply d h o) end)
   \/ (rel f' (fst (a_step d h o)) /\ x = snd (a_step d h o)).
 Proof.
-  intros f d h o lens k cut [Hd Hr] Hh Ho. unfold c_item, a_step. rewrite Hr.
+  intros f d h o lens k cut (Hd & Hr & Hb) Hh Ho. unfold c_item, a_step. rewrite Hr.
   destruct (a_apply d h o) as [[d'|] r] eqn:E; simpl fst; simpl snd.
-  - destruct (save_crash f d' lens k cut) as (f' & C & Hold & Hnew).
+  - destruct (save_crash f d' lens k cut Hb) as (f' & C & N & Hold & Hnew).
     destruct (k <? List.length (save_steps f d' lens))%nat eqn:L.
-    + rewrite C. left. split; auto. apply rel_same_main with f. split; auto. apply Hold. lia.
+    + rewrite C. left. split; auto. apply rel_same_main with f; auto. repeat split; auto. apply Hold. lia.
     + rewrite save_exec. right. split; auto. apply rel_saved. eapply a_apply_ok; eauto.
-  - left. split; auto. split; auto.
+  - left. split; auto. repeat split; auto.
 Qed.
 
 Theorem store_refines_map : forall items f d,
@@ -1060,9 +1092,9 @@ Proof.
   rewrite (a_run_no_crash items d cs Hn) in S. exact S.
 Qed.
 
-(* crash atomicity of one operation: for every mutating operation, every crash point k of
-   its step list and every cut of a write, the file afterwards reads as the complete previous
-   database or the complete new one *)
+(* crash atomicity of one operation: for every mutating operation, every crash point k of its
+   step list and every amount [cut] of the still-buffered data that had reached the disk, the file
+   afterwards reads as the complete previous database or the complete new one *)
 Theorem crash_atomic : forall f d h o lens k cut,
   rel f d -> str_ok h = true -> op_ok o = true ->
   exists f', crash_exec k cut (op_steps f h o lens) f = Some f' /\
@@ -1071,9 +1103,9 @@ Theorem crash_atomic : forall f d h o lens k cut,
     ((k < List.length (op_steps f h o lens))%nat -> read_db f' = Some d) /\
     ((List.length (op_steps f h o lens) <= k)%nat -> read_db f' = Some (fst (a_step d h o))).
 Proof.
-  intros f d h o lens k cut [Hd Hr] Hh Ho. unfold op_steps, a_step. rewrite Hr.
+  intros f d h o lens k cut (Hd & Hr & Hb) Hh Ho. unfold op_steps, a_step. rewrite Hr.
   destruct (a_apply d h o) as [[d'|] r] eqn:E; simpl fst.
-  - destruct (save_crash f d' lens k cut) as (f' & C & Hold & Hnew).
+  - destruct (save_crash f d' lens k cut Hb) as (f' & C & N & Hold & Hnew).
     assert (db_ok d' = true) as Hd' by (eapply a_apply_ok; eauto).
     exists f'. split; auto.
     destruct (Nat.le_gt_cases (List.length (save_steps f d' lens)) k) as [Hk|Hk].
@@ -1081,7 +1113,9 @@ Proof.
       repeat split; auto. intro. lia.
     + assert (read_db f' = Some d) as Hrd by (unfold read_db in *; rewrite (Hold Hk); auto).
       repeat split; auto. intro. lia.
-  - exists f. split. { destruct k; reflexivity. } repeat split; auto.
+  - exists f. split.
+    { assert (die cut f = f) as D by (unfold die; rewrite Hb; reflexivity). destruct k; simpl; rewrite D; reflexivity. }
+    repeat split; auto.
 Qed.
 
 (* ================================================================== the database as a map: isolation and the map laws *)
